@@ -664,6 +664,16 @@ def release_validation(ctx, RR, o):
                     if any(x.id in rr for x in rais) and g.exit not in rr and not any(m.id in rr for m in muts):
                         return n, truth
         return None
+    # "release everything" is taken only for the argument None: with an explicit argument (explored here as some non-None value, which may
+    # still be an empty dict) the parameter is never replaced by the whole reservation
+    o.count()
+    for n_ in g.nodes.values():
+        if n_.kind == 'stmt' and isinstance(n_.ast, ast.Assign) and n_.frame is g.top and any(isinstance(t, ast.Name) and t.id == pn for t in n_.ast.targets) \
+                and any(is_self_attr(x, '_reserved_resources') for x in ast.walk(n_.ast.value)) and res.at(n_.id):
+            o.fail(P, 'ReservedResources.release', n_.ast, 'an explicitly given argument (for instance an empty dict) is replaced by the whole reservation: '
+                   'release({}) must release nothing, only release(None) releases everything', node=n_, path=res.path_lines(n_.id, res.at(n_.id)[0]))
+    else:
+        o.witness('release-all-only-for-None')
     o.count()
     neg = guard(lambda L, op: op == '<' and L.is_({'amount': 1}))
     if not neg:
